@@ -72,8 +72,8 @@ GEN_TIE = (" Tie: S-B runs the model and the real StubsStringGenerator/generate_
            "objects and on the analysed repo test packages under both naming settings and compares every produced file byte for "
            "byte; S-E runs the whole tool (mypy + griffe) on generated packages and evaluates the property's predicate — written "
            "from the property statement against the package specification — on the parsed stubs.")
-ANA = (" The analyser side (mypy nodes -> API model) of this property is covered by the S-E oracle only; its Lean model "
-       "(Model/Analyze.lean) is tied by S-A but no theorem about it is claimed yet.")
+ANA = (" The analyser side (mypy nodes -> API model) of this property is covered by the S-E oracle and by the S-A correspondence of "
+       "the analyser model (Model/Analyze.lean); the theorems of this property are about the generator.")
 TEXT["C02"] = dict(
     technique="Lean 4 proof (lexical validity of every emitted token class) + exhaustive name correspondence S-N + S-B/S-E with an independent stub recogniser",
     text="Proof: Theorems/C02 proves for all inputs: escapeKeyword yields a legal identifier token and back-quotes exactly "
@@ -139,7 +139,96 @@ TEXT["C20"] = dict(
          "empty)." + GEN_TIE,
     note=TRUST + " 'internal class as type' is state-dependent (imports seen so far) and characterised separately.")
 
-NOT_YET = "not claimed yet: the model layer this property lives in is still under construction (see DESIGN.md §6 staging)"
+ANA_TIE = (" Tie for the analyser model (Model/Src.lean, Model/Analyze.lean): S-A runs real mypy.build and griffe.load on generated "
+           "packages, dumps the nodes the tool reads (tie/extract.py, reflective) and compares the whole API object and the "
+           "warning records of the model with those of ASTWalker+MyPyAstVisitor on the very same nodes; sets reach the model in a "
+           "shuffled order.")
+TEXT["C01"] = dict(
+    technique="Lean 4 proof (totality of the generator model on a decidable scope; exact error set outside it) + S-B/S-A/S-E outcome correspondence",
+    text="Proof: Theorems/C01 proves generator_total: for EVERY API value satisfying the decidable predicate Scope01 (every reached "
+         "type renderable and importable, every reached private superclass resolvable, nesting within the fuel) the generator "
+         "model runs to completion for both naming settings and any pre-existing files; never_keyError / errors_only_from_scope: "
+         "outside the scope the only possible errors are ValueError, IndexError, LookupError (and fuel exhaustion), each exhibited "
+         "by a kernel-checked boundary example; placeholder_stubs_never_raise: the split of dotted foreign names cannot fail. "
+         "Termination of model functions is checked by Lean (structural / fuel recursion)." + GEN_TIE + ANA_TIE +
+         " Outcome (completed / 'No files found' / exception type and site) is compared model vs implementation in S-B and S-A, "
+         "and S-E runs the whole tool under the 4x2x2x2x2 option product on generated packages: any exception other than the "
+         "documented rejection is a violation.",
+    note=TRUST + " Totality of the ANALYSER is not a theorem (its model has error branches for every raise site; which are "
+         "reachable from mypy output is checked by S-A/S-E only). Non-termination of the Python code cannot be exhibited by the "
+         "model: a hanging run hits the stage deadline and is reported as exit 2.")
+TEXT["C03"] = dict(
+    technique="Lean 4 proof (exact characterisation of the ghost emission log of every generator function, induction on fuel for classes) + S-B/S-A/S-E",
+    text="Proof: Theorems/C03 proves on the emission log of the generator model, for all API values and states: every generator "
+         "function only appends; a module logs exactly one fun/moved entry per public function and one class/moved block per "
+         "public non-exception class, in order, then every enum; a moved declaration is queued exactly once under the shortest "
+         "re-exporting module and emitted exactly once by the re-export phase (moved, not copied; (name,id)-sorted, canonical "
+         "order); attributes/methods/inner classes of a class are logged exactly once according to their publicity; "
+         "whole_run_log gives the log of a complete run in closed form. Analyser side: Theorems/C12 (every visited definition is "
+         "recorded)." + GEN_TIE + ANA_TIE,
+    note=TRUST + " The log is ghost state of the MODEL; that the text blocks of the implementation correspond to it rests on "
+         "byte-exact S-B correspondence. Known: an enum nested in a class is dropped by the analyser (documented in DESIGN).")
+TEXT["C04"] = dict(
+    technique="Lean 4 proof (emission-log filters: nothing non-public is logged) + S-B/S-A/S-E",
+    text="Proof: Theorems/C04 proves for all API values: a function/class/attribute/method/inner class whose is_public flag is "
+         "false contributes no entry to the emission log (module_top_level, private_*_not_logged), inside an inlined private "
+         "base the filter is by name (inlined_methods_rule); private_enum_is_logged is the kernel-checked witness of the known "
+         "finding K04-private-enum. The publicity decision itself (_is_public, re-export forms) is part of the analyser model and "
+         "tied by S-A." + GEN_TIE + ANA_TIE + " S-E compares the is_public flags of the API JSON and the names in all stub files "
+         "with the underscore/nesting/re-export ground truth of the generated package.",
+    note=TRUST + " No theorem yet states that the analyser model's is_public equals the convention predicate (dunder exception, "
+         "private path segments, four re-export forms): that half rests on S-A + the S-E oracle.")
+TEXT["C08"] = dict(
+    technique="Lean 4 proof (permutation invariance of every place where the model consumes a Python set or an enumeration order) + S-R subprocess determinism runs + S-A/S-B with shuffled sets",
+    text="Proof: Theorems/C08 proves, for all inputs: sorting with the model's comparators is invariant under permutation "
+         "(sortBy_perm_invariant, sortStrings_perm, tuple keys); shortestPublicReexport depends only on the SET of (key, module) "
+         "pairs; TODO block, import block, union text, placeholder order, reexported_by lists, the re-export map built by the "
+         "packages phase (commutative, idempotent adds) and all its consumers, the discovery/selection of files, the alias "
+         "choice (findAlias_perm, after the repair) and the order of re-exported elements are invariant under permutation of "
+         "the underlying sets/enumerations; inferred return types come in source order. Tie: S-R runs safeds_stubgen.main.main() "
+         "in fresh interpreters that differ in PYTHONHASHSEED, shuffled os.listdir/os.scandir, cwd and path spellings and compares "
+         "sha256 of every output file; S-A and S-B hand the model shuffled alias / re-export sets and still demand equality with "
+         "the implementation." + ANA_TIE,
+    note=TRUST + " mypy's build graph order, json.dumps and CPython's dict ordering are modelled as given (insertion order). "
+         "The theorems cover the order-sensitive steps the model makes explicit; a set iteration that the model does not contain "
+         "can only be caught by S-R.")
+TEXT["C12"] = dict(
+    technique="Lean 4 proof (invariants over the analyser walk as an abstract step sequence; mutual induction over Def/List Def) + S-A + S-E inventory oracle",
+    text="Proof: Theorems/C12 proves for EVERY successful run of the analyser model: the ids in each of the eight tables are "
+         "pairwise distinct, hence the JSON lists (sorted by id) are strictly increasing (tables_nodup, json_lists_sorted_nodup); "
+         "every id has the form <owner>/<name>, with the owner a recorded function for parameters/results and a recorded class "
+         "for attributes (ids_have_owner_form); every id referenced from a module, class, enum or function has an entry "
+         "(references_resolve); every function the walker visits is recorded with the static/class-method/property flags and "
+         "parameter names of its LAST definition (flags_copied*, function_ids_recorded); listed parts carry their owner's id. "
+         "The 'exactly one owner' clause is proved under id-uniqueness of the source definitions (…_partial) with kernel-checked "
+         "counterexamples (a module a.b and a class b in package a share ids; enum nested in a class)." + ANA_TIE +
+         " S-E loads <pkg>__api.json and checks schema version, sortedness, duplicates, id form, referential integrity, single "
+         "ownership and completeness/flags/defaults/superclasses against the package specification.",
+    note=TRUST + " json.dumps and the to_dict serialisers are outside the model (checked by S-E on the written file).")
+TEXT["C14"] = dict(
+    technique="Lean 4 proof (decision table of the reconciliation; two-run simulation for the warning option over the whole analyser) + S-A + S-E option-product oracle",
+    text="Proof: Theorems/C14 proves for all inputs: the chosen parameter type is exactly the decision table of the property "
+         "(param_choice: hint under CODE, docstring type under DOCSTRING, the only one otherwise; the docstring default "
+         "replacing the code default is stated, not hidden); a record is logged iff both types exist, differ by == and warnings "
+         "are enabled (param_warn_iff, result_warn_iff); results position by position incl. completion from the docstring with "
+         "fresh 1-based names (result_choice, appended_names_fresh); and warning_pure: for ANY package the API produced by the "
+         "analyser model is identical under WARN and IGNORE, errors included (relational proof through every analyser function)." +
+         ANA_TIE + " S-E runs generated packages with typed docstrings (3 structured styles) under the 2x2 option product: types "
+         "in the stubs per the table, warnings present/absent, files byte-identical between warning settings.",
+    note=TRUST + " Which docstring entries carry a type is decided by griffe (outside the model): known finding "
+         "K14-signature-fallback (griffe substitutes the signature's hint for an untyped entry; the tool takes it for a docstring "
+         "type). CLI option parsing is exercised by S-R/S-E only.")
+TEXT["C17"] = dict(
+    technique="Lean 4 proof (emission log of the superclass loop and of recursive inlining; chain theorem; kernel-checked diamond counterexamples) + S-B/S-E",
+    text="Proof: Theorems/C17 proves for all API values: the sub clause names exactly the non-private superclasses in "
+         "declaration order (private_supers_not_named) and exactly the private ones are inlined (supers_log); the set passed to "
+         "the inlining contains every emitted own member, so own definitions win (own_definition_wins, inherited_shadowed_by_own); "
+         "for a private ancestry that is a CHAIN every visible method of the ancestors is logged exactly once, nearer ancestors "
+         "shadowing farther ones (inherited_once_chain); for diamonds the claim is false of model and implementation "
+         "(diamond_logged_twice, inherited_once_false_for_diamond — known finding K17-private-diamond)." + GEN_TIE,
+    note=TRUST + " Superclass name resolution (aliases) is analyser-side: Theorems/C08 findAlias_known + S-A.")
+
+NOT_YET = "not claimed yet: theorems for this property are still being proved (see DESIGN.md)"
 
 
 def main() -> None:
